@@ -166,6 +166,10 @@ impl SocketRecv for RepSocket {
                             }
                         }
                         let data = m.split_off(at);
+                        if data.is_empty() {
+                            // Nothing follows the delimiter: there is no request to hand over.
+                            return Err(ZmqError::Other("Invalid message format"));
+                        }
                         self.envelope = Some(m);
                         self.current_request = Some(peer_id);
                         return Ok(data);
